@@ -25,3 +25,5 @@ func refE(n int, v []int) int {
 	}
 	return r
 }
+
+func zeroOr[T any](a int, b int) []T { return make([]T, 1) }
